@@ -19,9 +19,10 @@ breaker('C05', 'bs-abort-release-out-of-finally', 'C05.R1', BSPY,
 breaker('C05', 'ds-begin-owner-after-delegate', 'C05.R1', DSPY,
         'DemoStorage.tpc_begin',
         '''            self._transaction = transaction
-            self.changes.tpc_begin(transaction, *a, **k)''',
-        '''            self.changes.tpc_begin(transaction, *a, **k)
-            self._transaction = transaction''')
+            if not a and 'tid' not in k:''',
+        '''            self.changes.lastTransaction()
+            self._transaction = transaction
+            if not a and 'tid' not in k:''')
 breaker('C05', 'ms-abort-no-release', 'C05.R1', MSPY,
         'MappingStorage.tpc_abort',
         '''        self._transaction = None
@@ -2127,3 +2128,10 @@ breaker('C07', 'gc-unreachable-backpointer-in-one-slot-table', 'C07.R2', PACKPY,
                     if dh.back not in L:
                         L.append(dh.back)
                         extra_roots.append(dh.back)''')
+
+breaker('C16', 'ds-begin-ignores-base-tid', 'C16.R10', DSPY,
+        'DemoStorage.tpc_begin',
+        '''                last = self.base.lastTransaction()
+                if last > self.changes.lastTransaction():
+                    a = (ZODB.utils.newTid(last),)''',
+        '''                pass''')
